@@ -42,7 +42,7 @@ func builtinArrayToLocaleString(call FunctionCall) Value {
 	if length == 0 {
 		return stringValue("")
 	}
-	stringList := make([]string, 0, length)
+	stringList := make([]string, 0, min(length, 1024)) // do not allocate by a claimed length
 	for index := range length {
 		value := thisObject.get(arrayIndexToString(index))
 		stringValue := ""
@@ -151,7 +151,7 @@ func builtinArrayJoin(call FunctionCall) Value {
 	if length == 0 {
 		return stringValue("")
 	}
-	stringList := make([]string, 0, length)
+	stringList := make([]string, 0, min(length, 1024)) // do not allocate by a claimed length
 	for index := range length {
 		value := thisObject.get(arrayIndexToString(index))
 		stringValue := ""
@@ -177,14 +177,14 @@ func builtinArraySplice(call FunctionCall) Value {
 		// splice() deletes nothing (15.4.4.12: ToInteger(undefined) is 0)
 		deleteCount = 0
 	}
-	valueArray := make([]Value, deleteCount)
+	valueArray := make([]Value, 0, min(deleteCount, 1024)) // grows as elements are read, not by a claimed length
 
 	for index := range deleteCount {
 		indexString := arrayIndexToString(start + index)
 		if thisObject.hasProperty(indexString) {
-			valueArray[index] = thisObject.get(indexString)
+			valueArray = append(valueArray, thisObject.get(indexString))
 		} else {
-			valueArray[index] = emptyValue // a hole stays a hole
+			valueArray = append(valueArray, emptyValue) // a hole stays a hole
 		}
 	}
 
@@ -261,14 +261,14 @@ func builtinArraySlice(call FunctionCall) Value {
 		return objectValue(call.runtime.newArray(0))
 	}
 	sliceLength := end - start
-	sliceValueArray := make([]Value, sliceLength)
+	sliceValueArray := make([]Value, 0, min(sliceLength, 1024)) // grows as elements are read, not by a claimed length
 
 	for index := range sliceLength {
 		from := arrayIndexToString(index + start)
 		if thisObject.hasProperty(from) {
-			sliceValueArray[index] = thisObject.get(from)
+			sliceValueArray = append(sliceValueArray, thisObject.get(from))
 		} else {
-			sliceValueArray[index] = emptyValue // a hole stays a hole
+			sliceValueArray = append(sliceValueArray, emptyValue) // a hole stays a hole
 		}
 	}
 
@@ -602,12 +602,12 @@ func builtinArrayMap(call FunctionCall) Value {
 	length := int64(toUint32(thisObject.get(propertyLength)))
 	if iterator := call.Argument(0); iterator.isCallable() {
 		callThis := call.Argument(1)
-		values := make([]Value, length)
+		values := make([]Value, 0, min(length, 1024)) // grows as elements are read, not by a claimed length
 		for index := range length {
 			if key := arrayIndexToString(index); thisObject.hasProperty(key) {
-				values[index] = iterator.call(call.runtime, callThis, thisObject.get(key), index, this)
+				values = append(values, iterator.call(call.runtime, callThis, thisObject.get(key), index, this))
 			} else {
-				values[index] = emptyValue // a hole stays a hole
+				values = append(values, emptyValue) // a hole stays a hole
 			}
 		}
 		return objectValue(call.runtime.newArrayOf(values))
